@@ -39,9 +39,8 @@ SelfRef(hdir, HO, nodes, attr) ==
 
 InWin(t, f, g) == f <= t /\ t <= g
 
-\* presence the property assigns to H
-ExpectedTriples(line, GO) ==
-  LET P == Triples(GO) IN
+\* presence the property assigns to H, as a function of the presence P of the source
+ExpectedFrom(line, P) ==
   CASE line.kind = "time_slice"  -> { x \in P : InWin(x[3], line.f, line.g) }
     [] line.kind = "time_slice2" -> { x \in P : InWin(x[3], line.f, line.g) /\ InWin(x[3], line.f2, line.g2) }
     [] line.kind = "to_directed" -> P \cup { <<x[2], x[1], x[3]>> : x \in P }
@@ -53,6 +52,7 @@ ExpectedTriples(line, GO) ==
     [] line.kind = "subgraph"   -> { x \in P : x[1] \in ToSet(line.nb) /\ x[2] \in ToSet(line.nb) }
     [] line.kind = "empty_copy" -> {}
     [] OTHER -> P
+ExpectedTriples(line, GO) == ExpectedFrom(line, Triples(GO))
 \* H's table holds both orders of an undirected pair
 Sym(hdir, P) == IF hdir THEN P ELSE P \cup { <<x[2], x[1], x[3]>> : x \in P }
 
@@ -87,6 +87,19 @@ KF3_explains(line, got, exp) ==
   /\ line.kind = "to_directed"
   /\ got \subseteq exp
   /\ \A x \in exp \ got : <<x[2], x[1], x[3]>> \in got
+
+\* KF8: the conversions of an *accumulative* source (edge_removal=False) re-add its stored intervals into a
+\* removal-enabled graph: the persistence of the interactions up to the last snapshot id is not carried over.  The
+\* finding explains exactly the result whose presence is the one the stored timelines of the source give (for
+\* to_directed possibly with one direction only, KF3); any other presence is a violation.
+StoredTriples(R, GO) ==
+  LET S == UNION { { <<x.u, x.v, t>> : t \in PresOf(x.iv) } : x \in TlAll(GO) }
+  IN IF R.dir THEN S ELSE S \cup { <<x[2], x[1], x[3]>> : x \in S }
+KF8_explains(R, line, GO, got, hdir) ==
+  /\ ~R.rem /\ line.kind \in {"to_directed", "to_undirected"}
+  /\ LET exp8 == Sym(hdir, ExpectedFrom(line, StoredTriples(R, GO))) IN
+     \/ got = exp8
+     \/ (line.kind = "to_directed" /\ got \subseteq exp8 /\ \A x \in exp8 \ got : <<x[2], x[1], x[3]>> \in got)
 
 \* graphs rebuilt by point adds (readers) inherit KF1: every two-instant run
 PointBuilt(line) == line.kind \in {"snapshots", "json"}
@@ -161,6 +174,7 @@ DeriveTable(R, T, prevO, line) ==
     <<nm("b_presence"),
       IF okp THEN "ok"
       ELSE IF KF3_explains(line, got, exp) THEN "KF3"
+      ELSE IF KF8_explains(R, line, GO, got, hdir) THEN "KF8"
       ELSE IF line.kind = "interactions" /\ KF1_explains_read(R, T, got, exp) THEN "KF1"
       ELSE "fail">>,
     <<nm("c_nodes_attrs"), St(/\ NodesOf(HO) = ns
